@@ -27,6 +27,7 @@ CHECKS = {
     },
     "C01": {
         "pkg": "c01",
+        "parts": [{"pkg": "c01"}, {"pkg": "c01m", "overlay_main": True, "shards": 1}],
         "rule": "rapid-generated configurations and multi-round source histories driving the real sync.Run in a synctest bubble.",
         "assumptions": ["the system clock and the clock discipline are replaced by a scripted clock (Drift = rate x interval, or unknown) and a recorder", "NaN impact factors are generated among the inadmissible configurations", "offsets of magnitude >= 2^62 are generated but exempt from the exact reference model (only the bound is asserted)"],
         "timeout_quick": 400, "timeout_thorough": 1800,
